@@ -676,14 +676,16 @@ theorem mid_write {s : St} {ents : List Ent} (h : Mid s ents) (e : Ent) (he : e 
 
 theorem mid_apply {s : St} {ents : List Ent} (h : Mid s ents) (e : Ent) (he : e ∈ ents) (hne : e.2.name ≠ "") (c : Nat) :
     Mid (exec s (.apply e.2.kind e.2.name e.1 c)).1 ents := by
+  by_cases hinv : c = invalidContent
+  · simp only [exec, hinv, if_true]; exact h
   have hw := mid_write h e he hne (fun o => { o with annot := e.1, ctrl := .xr, content := c, ssa := true })
     (fun _ => rfl) (fun _ => rfl) ⟨e.2.kind, e.2.name, e.1, .xr, false, false, c, true⟩ rfl rfl
   cases hf : findObj s.objs e.2.kind e.2.name with
-  | none => simp only [exec, hf]; simpa [hf] using hw (by intro o ho; rw [hf] at ho; cases ho)
+  | none => simp only [exec, hinv, if_false, hf]; simpa [hf] using hw (by intro o ho; rw [hf] at ho; cases ho)
   | some o0 =>
     by_cases hc0 : o0.ctrl = .other
-    · simp only [exec, hf, hc0, if_true]; exact h
-    · simp only [exec, hf, hc0, if_false]
+    · simp only [exec, hinv, if_false, hf, hc0, if_true]; exact h
+    · simp only [exec, hinv, if_false, hf, hc0]
       simpa [hf] using hw (by intro o ho; rw [hf] at ho; cases ho; exact hc0)
 
 theorem safe_applyFn (lrv : Nat) (named : List Named) (ents : List Ent) (k : Bool → P) :
@@ -730,15 +732,15 @@ theorem mem_refsOf (named : List Named) (r : Ref) : r ∈ refsOf named ↔ ∃ e
   · rintro ⟨n, hn, rfl⟩; exact ⟨_, ⟨n, hn, rfl⟩, rfl⟩
   · rintro ⟨_, ⟨n, hn, rfl⟩, rfl⟩; exact ⟨n, hn, rfl⟩
 
-theorem exec_patchRefs_refs (s : St) (r : List Ref) : (exec s (.patchRefs r)).1.refs = r := by
+theorem exec_patchRefs_refs (s : St) (v : String) (r : List Ref) : (exec s (.patchRefs v r)).1.refs = r := by
   simp only [exec]; split
-  · rename_i h; exact h.symm
+  · rename_i h; exact h.1.symm
   · rfl
 
-theorem exec_patchRefs_objs (s : St) (r : List Ref) : (exec s (.patchRefs r)).1.objs = s.objs := by
+theorem exec_patchRefs_objs (s : St) (v : String) (r : List Ref) : (exec s (.patchRefs v r)).1.objs = s.objs := by
   simp only [exec]; split <;> rfl
 
-theorem exec_patchRefs_foreign0 (s : St) (r : List Ref) : (exec s (.patchRefs r)).1.foreign0 = s.foreign0 := by
+theorem exec_patchRefs_foreign0 (s : St) (v : String) (r : List Ref) : (exec s (.patchRefs v r)).1.foreign0 = s.foreign0 := by
   simp only [exec]; split <;> rfl
 
 /-- The heart of C01: when the new references are persisted, every live composed
@@ -746,9 +748,9 @@ resource controlled by the XR is among them. -/
 theorem mid_after_patch {s0 s3 : St} (hg : Good s0) {obs : Obs} (hobs : ObsOKp s0 s0.refs obs)
     {ds : List Desired} {named : List Named} (hn : NamedOK s0 obs ds named)
     (hkind : ∀ d ∈ ds, ∀ o, obsLookup obs d.rname = some o → o.kind = d.kind)
-    (hsh : Shrunk s0 s3)
+    (hsh : Shrunk s0 s3) (ver : String)
     (hdead : ∀ o ∈ (obs.filter fun p => !(ds.any (·.rname = p.1))).map (·.2), ∀ o' ∈ s3.objs, key o' = key o → o'.deleting = true) :
-    Mid (exec s3 (.patchRefs (refsOf named))).1 (entsOf named) := by
+    Mid (exec s3 (.patchRefs ver (refsOf named))).1 (entsOf named) := by
   have hg3 := hsh.good hg
   -- a rendered entry that was inherited points at the observed object it was inherited from
   have hinh : ∀ n ∈ named, n.gen = false → ∃ o ∈ s0.objs, obsLookup obs n.d.rname = some o ∧ key o = nkey n ∧ o.annot = n.d.rname := by
@@ -876,7 +878,7 @@ theorem safe_composeFn {s : St} (hg : Good s) (lrv : Nat) (out : Obs → FnOut) 
         have : x = o2 := eq_of_key_eq hg.nodup hx hm2 hkx
         exact this ▸ hc2
       intro s3 hsh hdead
-      have hmid := mid_after_patch hg hobs hnamed (ho.kind obs ds hout) hsh
+      have hmid := mid_after_patch hg hobs hnamed (ho.kind obs ds hout) hsh ch.ver
         (by intro o ho' o' ho'' hk; exact hdead o ((hc.gc _ _).mpr ho') o' ho'' hk)
       apply safe_wcall (hsh.good hg) _ _ _ hmid.good
       intro _ _
@@ -900,7 +902,7 @@ theorem safe_reconcile_of_body {s : St} (hg : Good s) (m : Mode)
     (hbody : ∀ (s' : St) (lrv : Nat), Good s' → s'.refs = s.refs →
       Safe sem Good (match m with
         | .fn out ch => composeFn lrv s.refs out ch
-        | .pt tmpl fresh => composePT lrv s.refs tmpl fresh) s') :
+        | .pt tmpl fresh ver => composePT lrv s.refs tmpl fresh ver) s') :
     Safe sem Good (reconcile m) s := by
   unfold reconcile
   have hread : sem.errResp .conflict (.addFinalizer s.xrRv) = .conflict := rfl
